@@ -661,6 +661,10 @@ impl Prop for C39 {
         }
         let mut out = vec![];
         let mut classes: Vec<(String, String)> = vec![];
+        // which runs are kept as evidence samples is decided by a generator of its own: how many samples
+        // a batch already holds must never shift the draws that shape the workload (the enumeration
+        // below the loader draws after this loop)
+        let mut sample_rng = Rng::new(seed ^ 0x5a5a_5a5a_5a5a_5a5a);
         // the recovery compile costs a full compilation: for expensive workloads do it for every 4th plan
         let heavy = base.finds > 60;
         for (n, (plan, chunk)) in plans.into_iter().enumerate() {
@@ -680,7 +684,7 @@ impl Prop for C39 {
                 classes.push((oracle.clone(), signature.clone()));
                 let case = Case { workload: workload.clone(), plan, chunk, via: Via::Stub };
                 out.push(viol(&case, oracle, signature, detail, &o));
-            } else if stats.samples.len() < 4 && !o.delivered.is_empty() && rng.chance(1, 50) {
+            } else if stats.samples.len() < 4 && !o.delivered.is_empty() && sample_rng.chance(1, 50) {
                 stats.samples.push(json!({
                     "seed": vcommon::hex(seed),
                     "index": index,
